@@ -230,7 +230,7 @@ end Drv
 namespace Drv
 open Lean IGVerif
 
-def idPoolTab : Array String := #["123", "7", "a.b", "S.1.2", "x9", "0", "AB12cd", "Sec. 4 \"Records\"", "it's", "7|a", "§ 205.2(b)"]
+def idPoolTab : Array String := #["123", "7", "a.b", "S.1.2", "x9", "0", "AB12cd", "Sec. 4 \"Records\"", "it's", "7|a", "§ 205.2(b)", "5.", "650 ", " 12", "Art. 5 (2)"]
 
 /-- statements for the tabular family: simple with combinations, supported nesting, pairs -/
 def genTabStmt (i : Nat) : G (Stmt × String) := do
